@@ -9,25 +9,35 @@
 //	        ordered identically by semver, Maven and PEP 440; 1.10.0 and 10.0.0 make the
 //	        ordering numeric rather than lexicographic)
 //	probes  the 6 ladder versions, one version below, one above, one inside each of the 5 gaps,
-//	        and for Maven/PyPI the equivalent spellings "1.0" (=1.0.0) and "2" (=2.0.0)
+//	        for Maven/PyPI the equivalent spellings "1.0" (=1.0.0) and "2" (=2.0.0), and one
+//	        valid version below 0.0.0 (npm 0.0.0-alpha, Maven 0-alpha, PyPI 0.dev0) which only
+//	        the special introduced "0" precedes
 //	lists   every well-formed event list of length <= 4 (quick) / <= 5 (thorough): once ordered
 //	        the events alternate introduced, fixed|last_affected, introduced, ... starting with
 //	        introduced; introduced is "0" (first only) or a ladder version; closers are ladder
 //	        versions; introduced < fixed, introduced <= last_affected (equality = exactly one
 //	        affected version), closer < next introduced. Each list is LISTED IN EVERY PERMUTATION.
 //	phase A one affected entry, one range; type ECOSYSTEM, SEMVER (npm only), GIT
-//	phase B one affected entry, two ranges (r1 any permuted list up to a phase bound, r2 any
-//	        permuted list of length <= 2, both orders, every type pair)
-//	phase C two affected entries: C1 a matching entry plus a decoy entry for another package name
-//	        and/or another ecosystem that would match everything (both orders; decoy alone);
-//	        C2 two entries for the queried package (affected iff any)
+//	phase B one affected entry, two ranges (r1 any permuted list of <= 2 (quick) / <= 4 (thorough)
+//	        events, r2 any permuted list of <= 2 events, both orders, every type pair; for r1 of
+//	        4 events only the type pairs without GIT)
+//	phase C two affected entries: C1 a matching entry (range of <= 3 / <= 4 events, permuted) plus a
+//	        decoy entry for another package name and/or another ecosystem that would match
+//	        everything (both orders; decoy alone); C2 two entries for the queried package
+//	        (affected iff any; first <= 2 / <= 3 events, second <= 2 events or a versions list)
 //	phase D explicit `versions` lists (every subset of size <= 2 of the probe set) alone or
-//	        next to a range of type ECOSYSTEM / GIT
+//	        next to a range (<= 2 / <= 3 events, permuted) of type ECOSYSTEM / GIT
 //
 // Oracle: specScan (OSV "evaluation" pseudo-code) with refCmp, a 3-integer comparison written
 // here; a second, declarative formulation (declAffected: v lies in an [introduced, closer)
 // interval) is cross-checked against specScan on every canonical (range, probe) pair and the
 // run aborts with exit 3 (harness error) if the two ever disagree.
+//
+// Cause keys name the root cause, found by re-running the failing record's parts through the
+// implementation: a decoy entry, a range of non-matching type, one misjudged range (keyed by where
+// the version sits relative to the ordered events), the versions list, or only the combination.
+// One variant model is carried for attribution only: "events on the same version keep their listed
+// order" (key tie-introduced-eq-last_affected:listed-order-decides).
 //
 // Don't-care cells (never generated, or skipped where noted):
 //   - SEMVER-typed ranges for Maven / PyPI ("a range of a matching type": the statement does not say
@@ -36,7 +46,8 @@
 //     `fixed` on the same version as an `introduced` (empty interval or re-introduction at the fix
 //     version: the ordering of the two tied events is not defined by the specification).
 //   - package versions or event versions that the ecosystem cannot parse; pre-release / build /
-//     epoch / qualifier syntax (ordering belongs to C07).
+//     epoch / qualifier syntax (ordering belongs to C07) — except the single below-zero probe,
+//     of which only "valid, and below every ladder version" is used.
 //   - explicit `versions` entry that is version-equal but not string-equal to the queried version
 //     ("1.0.0" listed, "1.0" queried) when no range makes the version affected: the specification
 //     does not say whether the list is matched by string or by version equality — skipped, counted
@@ -129,6 +140,8 @@ func refParse(s string) (ver, bool) {
 }
 
 var verCache = map[string]ver{} // filled in init, read-only afterwards
+
+func parses(s string) bool { _, ok := refParse(s); return ok }
 
 func mustVer(s string) ver {
 	if v, ok := verCache[s]; ok {
@@ -361,6 +374,7 @@ type ecoT struct {
 	sys     resolve.System
 	name    string
 	other   string // another package name in the same ecosystem
+	preZero string // a valid version of the ecosystem that sorts below 0 / 0.0.0 (only introduced "0" precedes it)
 	types   []string
 	probes  []string
 	pkgs    []*extractor.Package
@@ -368,9 +382,9 @@ type ecoT struct {
 }
 
 var ecos = []*ecoT{
-	{osv: "npm", sys: resolve.NPM, name: "left-pad", other: "right-pad", types: []string{"ECOSYSTEM", "SEMVER", "GIT"}},
-	{osv: "Maven", sys: resolve.Maven, name: "com.example:alpha", other: "com.example:beta", types: []string{"ECOSYSTEM", "GIT"}},
-	{osv: "PyPI", sys: resolve.PyPI, name: "alpha-lib", other: "beta-lib", types: []string{"ECOSYSTEM", "GIT"}},
+	{osv: "npm", sys: resolve.NPM, name: "left-pad", other: "right-pad", preZero: "0.0.0-alpha", types: []string{"ECOSYSTEM", "SEMVER", "GIT"}},
+	{osv: "Maven", sys: resolve.Maven, name: "com.example:alpha", other: "com.example:beta", preZero: "0-alpha", types: []string{"ECOSYSTEM", "GIT"}},
+	{osv: "PyPI", sys: resolve.PyPI, name: "alpha-lib", other: "beta-lib", preZero: "0.dev0", types: []string{"ECOSYSTEM", "GIT"}},
 }
 
 func initSpace() {
@@ -391,6 +405,11 @@ func initSpace() {
 	}
 	for _, e := range ecos {
 		e.probes = append(append([]string{}, ladder...), gapProbes...)
+		// one pre-release of version zero: below every ladder version and below 0.0.0 in its
+		// ecosystem, preceded only by the special introduced "0". The reference comparison
+		// represents it as (-1,0,0); it is never used as an event version.
+		e.probes = append(e.probes, e.preZero)
+		verCache[e.preZero] = ver{-1, 0, 0}
 		if e.osv != "npm" {
 			e.probes = append(e.probes, aliasProbes...)
 		}
@@ -563,7 +582,10 @@ func (st *stats) addViol(key, what string, c *rCase) {
 var (
 	gAffected, gNotAffected, gSkipped atomic.Int64
 	gPermLists                        atomic.Int64
+	gPhaseEvals                       [6]atomic.Int64 // A, B, C1, C2, D, D0
 )
+
+var phaseNames = []string{"A", "B", "C1", "C2", "D", "D0"}
 
 func safeCall(v *osvschema.Vulnerability, pkg *extractor.Package) (got bool, panicked any, stack string) {
 	defer func() {
@@ -784,10 +806,10 @@ func main() {
 	x := &runner{r: r}
 
 	maxLen := ev.Pick(r, 4, 5)  // phase A: event list length
-	lenB1 := ev.Pick(r, 3, 4)   // phase B: first range length (second: <= 2)
-	lenC1 := ev.Pick(r, 3, 5)   // phase C1: matching entry's range length
+	lenB1 := ev.Pick(r, 2, 4)   // phase B: first range length (second: <= 2)
+	lenC1 := ev.Pick(r, 3, 4)   // phase C1: matching entry's range length
 	lenC2 := ev.Pick(r, 2, 3)   // phase C2: first entry's range length (second: <= 2)
-	lenD := ev.Pick(r, 2, 4)    // phase D: range length next to a versions list
+	lenD := ev.Pick(r, 2, 3)    // phase D: range length next to a versions list
 	const lenSecond = 2         // second range / second entry range length
 	const maxVersionsSubset = 2 // phase D: size of the explicit versions list
 
@@ -821,7 +843,7 @@ func main() {
 	// oracle self-check: scan == interval wording on every canonical list x every probe string
 	for _, c := range canons {
 		evs := c.listed(perms(len(c.evs))[0])
-		for _, p := range append(append(append([]string{}, ladder...), gapProbes...), aliasProbes...) {
+		for _, p := range append(append(append(append([]string{}, ladder...), gapProbes...), aliasProbes...), ecos[0].preZero, ecos[1].preZero, ecos[2].preZero) {
 			if specScan(evs, p) != declAffected(evs, p) {
 				fmt.Fprintf(os.Stderr, "C18 harness error: the two reference formulations disagree on %s @ %s\n", c.str, p)
 				os.Exit(3)
@@ -933,15 +955,25 @@ func main() {
 				}
 			}
 		case "B":
-			for _, pm := range perms(len(it.c.evs)) {
+			for pn, pm := range perms(len(it.c.evs)) {
 				l1 := it.c.listed(pm)
 				defer guard(e, it.c, pm, l1)
+				first := int64(0) // 1 while enumerating the canonical listing: distinct cells are counted there only
+				if pn == 0 {
+					first = 1
+				}
 				for _, s2 := range seconds {
 					for _, t1 := range e.types {
 						for _, t2 := range e.types {
+							if len(it.c.evs) > 3 && (t1 == "GIT" || t2 == "GIT") {
+								continue // GIT pairings are enumerated for first ranges of up to 3 events only
+							}
 							for pi := range e.probes {
 								c := mk("B", pi, own(nil, rg(t1, l1), rg(t2, s2.evs)))
 								x.check(c, e, pi, &st)
+								if s2.pidx == 0 {
+									distinct += first
+								}
 								if len(it.c.evs) > lenSecond { // the swapped order is not itself in the product
 									c = mk("B", pi, own(nil, rg(t2, s2.evs), rg(t1, l1)))
 									x.check(c, e, pi, &st)
@@ -951,8 +983,6 @@ func main() {
 					}
 				}
 			}
-			// distinct: (canonical r1, canonical r2, type pair, probe)
-			distinct = int64(len(upTo(lenSecond)) * len(e.types) * len(e.types) * len(e.probes))
 		case "C1":
 			type decoy struct{ eco, name string }
 			decoys := []decoy{{e.osv, e.other}}
@@ -964,9 +994,13 @@ func main() {
 				matchTypes = append(matchTypes, "SEMVER")
 			}
 			all := rg("ECOSYSTEM", []rEvent{{Introduced: "0"}})
-			for _, pm := range perms(len(it.c.evs)) {
+			for pn, pm := range perms(len(it.c.evs)) {
 				l1 := it.c.listed(pm)
 				defer guard(e, it.c, pm, l1)
+				first := int64(0) // 1 while enumerating the canonical listing: distinct cells are counted there only
+				if pn == 0 {
+					first = 1
+				}
 				for _, typ := range matchTypes {
 					for pi, pv := range e.probes {
 						for _, d := range decoys {
@@ -980,20 +1014,27 @@ func main() {
 								}
 								x.check(mk("C1", pi, own(nil, rg(typ, l1)), da), e, pi, &st)
 								x.check(mk("C1", pi, da, own(nil, rg(typ, l1))), e, pi, &st)
+								distinct += 2 * first
 							}
 						}
 					}
 				}
 			}
-			distinct = int64(len(matchTypes) * len(e.probes) * len(decoys) * 3 * 2)
 		case "C2":
-			for _, pm := range perms(len(it.c.evs)) {
+			for pn, pm := range perms(len(it.c.evs)) {
 				l1 := it.c.listed(pm)
 				defer guard(e, it.c, pm, l1)
+				first := int64(0) // 1 while enumerating the canonical listing: distinct cells are counted there only
+				if pn == 0 {
+					first = 1
+				}
 				for _, s2 := range seconds {
 					for _, tp := range [][2]string{{"ECOSYSTEM", "ECOSYSTEM"}, {"ECOSYSTEM", "GIT"}, {"GIT", "ECOSYSTEM"}} {
 						for pi := range e.probes {
 							x.check(mk("C2", pi, own(nil, rg(tp[0], l1)), own(nil, rg(tp[1], s2.evs))), e, pi, &st)
+							if s2.pidx == 0 {
+								distinct += first
+							}
 						}
 					}
 				}
@@ -1006,15 +1047,19 @@ func main() {
 						}
 						x.check(mk("C2", pi, own(nil, rg("ECOSYSTEM", l1)), own([]string{lv})), e, pi, &st)
 						x.check(mk("C2", pi, own([]string{lv}), own(nil, rg("GIT", l1))), e, pi, &st)
+						distinct += 2 * first
 					}
 				}
 			}
-			distinct = int64(len(upTo(lenSecond))*3*len(e.probes) + 2*len(e.probes)*len(e.probes))
 		case "D":
 			subs := subsets(len(e.probes))
-			for _, pm := range perms(len(it.c.evs)) {
+			for pn, pm := range perms(len(it.c.evs)) {
 				l1 := it.c.listed(pm)
 				defer guard(e, it.c, pm, l1)
+				first := int64(0) // 1 while enumerating the canonical listing: distinct cells are counted there only
+				if pn == 0 {
+					first = 1
+				}
 				for _, typ := range []string{"ECOSYSTEM", "GIT"} {
 					for _, sub := range subs {
 						vs := []string{}
@@ -1034,11 +1079,11 @@ func main() {
 								continue
 							}
 							x.check(c, e, pi, &st)
+							distinct += first
 						}
 					}
 				}
 			}
-			distinct = int64(2 * len(subs) * len(e.probes))
 		case "D0":
 			// no ranges at all: versions list alone; also an entry with neither; also decoy-only records
 			subs := subsets(len(e.probes))
@@ -1086,6 +1131,11 @@ func main() {
 			}
 		}
 		st.flush(r, distinct)
+		for i, n := range phaseNames {
+			if n == it.phase {
+				gPhaseEvals[i].Add(st.evals)
+			}
+		}
 		itemViols[order[k]] = st.viols
 	})
 	for _, vs := range itemViols { // canonical work-item order
@@ -1104,6 +1154,11 @@ func main() {
 	r.Set("distinct_event_lists", distinctLists.Load())
 	r.Set("permuted_event_lists", gPermLists.Load()/3)
 	r.Set("distinct_single_range_cells", distinctA.Load())
+	byPhase := map[string]int64{}
+	for i, n := range phaseNames {
+		byPhase[n] = gPhaseEvals[i].Load()
+	}
+	r.Set("evaluations_by_phase", byPhase)
 	r.Set("verdict_affected", gAffected.Load())
 	r.Set("verdict_not_affected", gNotAffected.Load())
 	r.Set("dont_care_skipped", gSkipped.Load())
@@ -1142,7 +1197,7 @@ func replay(file string) int {
 		return 3
 	}
 	// every version in the record must be one the reference comparison understands
-	if _, ok := refParse(c.Version); !ok {
+	if _, ok := verCache[c.Version]; !ok && !parses(c.Version) {
 		fmt.Fprintf(os.Stderr, "replay: version %q outside the reference comparison's domain\n", c.Version)
 		return 3
 	}
